@@ -142,8 +142,8 @@ Definition exp_obs (p : pcase) : option obs :=
       then Some (OCell (exp_cell cfg pr) (0, 0, 0, 0))    (* the cache is not part of the spec *)
       else None
   | OpKitty => Some (OBool (Some (exp_kitty cfg pr)))
-  | OpIterm2 => if konsole_without_version cfg pr then None else Some (OBool (Some (exp_iterm2 cfg pr)))
-  | OpAuto => if konsole_without_version cfg pr then None else Some (OStyle (Some (exp_auto cfg pr)))
+  | OpIterm2 => Some (OBool (Some (exp_iterm2 cfg pr)))
+  | OpAuto => Some (OStyle (Some (exp_auto cfg pr)))
   | _ => None
   end.
 
